@@ -6,7 +6,11 @@ CHECK = {
     "level": "fault_enumeration",
     "assumptions": [
         "the fake CAS (hand-written blobstore.BlobAccess) hands out bb-storage CAS buffers that verify size and checksum, like a remote storage backend; storage faults are one-shot (error, corrupted bytes, truncated bytes, NOT_FOUND) on a chosen read; for file blobs additionally an object that lost its tail served through a NON-validating buffer (buffer.NewValidatedBufferFromReaderAt, as local file/block device storage does): a read of a CAS-backed file must then return exactly the digest's bytes or an error status",
-        "naiveBuildDirectory: an object served short through a non-validating buffer is not an input (no fetcher can notice); cancellation of the caller's context is injected when a chosen file download starts, or with the last downloads held in flight once all have started, against a fake CAS that honours the context (plain BlobAccessFileFetcher, no hard link cache in those cases)",
+        "naiveBuildDirectory: an object served short through a non-validating buffer is not an input (no fetcher can notice); cancellation of the caller's context is injected when a chosen file download starts, or with the last downloads held in flight once all have started, against a fake CAS that honours the context; with the hard link cache only 'cancel when download #k starts' with k below the number of distinct (digest, executable) pairs is used (requests served from the cache or waiting for somebody else's download never reach the CAS, and a held download makes the other requests for the same file wait while occupying download slots), and a second merge with a live context follows",
+        "naiveBuildDirectory: the harness plays the action on the real directory as root, so permission bits are asserted (no write bit on any input file in a build directory or on any entry of the hard link cache: cas.NewBlobAccessFileFetcher creates them 0444/0555 and HardlinkingFileFetcher shares them as hard links) instead of attempting writes; an action is modelled as being able to unlink, replace (unlink + create, create + rename over) and remove input files of its own build directory, not to chmod them (in production it runs as another user than the worker)",
+        "symlink targets are compared after a normal form that preserves POSIX pathname resolution (empty and '.' components dropped, '..' kept except directly below '/', trailing slash kept): the virtual file system stores targets as parsed paths and naiveBuildDirectory writes the parsed form to disk; generated targets are relative or absolute, with '..' anywhere, trailing slashes, non-ASCII UTF-8, control characters, up to 700 bytes (below PATH_MAX); targets that are not UTF-8 cannot be carried by a REv2 Directory message (proto3 string) and count as a malformed message; a target containing NUL is malformed (rejected by the UNIX path parser)",
+        "VirtualRemove is documented to behave 'like rmdir(), unlink() or a mixture' and Directory.Remove as 'the equivalent of os.Remove()': the codes those calls document are accepted (ENOENT; ENOTEMPTY or EEXIST for a non-empty directory; ENOTDIR for rmdir of a non-directory; EPERM or EISDIR for unlink of a directory). VirtualRename documents no codes: an impossible rename (no such source, directory over non-directory or the reverse, non-empty target) only has to fail with an error other than an I/O error and change nothing. EEXIST for create/mkdir/symlink/link onto an existing name and ENOENT/EISDIR/EINVAL for lookups, opens and readlink of the wrong kind of node are still compared exactly (POSIX codes the FUSE/NFS clients rely on)",
+        "after MergeDirectoryContents fails because a name already exists (EEXIST), the leaves created for the new root directory are not checked for release (the pinned code does not unlink them; recorded as observation, proposed-fixes/0002); everywhere else leaves created by a directory load that fails must have been unlinked (fetchContentsUnwrapped: 'Ensure that leaves are properly unlinked if this method fails'), judged by the NFS handle pool being empty after the tree is torn down",
         "a directory is never renamed into its own subtree (kernel / NFS client reject this before calling the file system; excluded and counted)",
         "VirtualWrite / VirtualRead / VirtualClose are only issued on a leaf that was opened with that share bit (the CAS file panics by design on an un-intercepted write); VirtualWrite is never issued after a refused open",
         "hard links are only made to immutable leaves (CAS files, symlinks); locally created files are not hard linked (keeps the reference model a plain tree)",
@@ -30,13 +34,13 @@ CHECK = {
           {"checks": 6000, "shards": 1, "timeout": 300},
           {"checks": 40000, "shards": 4, "timeout": 1500}, env=ENV),
         T("inputroot", "TestC17NaiveBuildDirectory",
-          {"checks": 150, "shards": 1, "timeout": 300},
+          {"checks": 200, "shards": 1, "timeout": 300},
           {"checks": 1000, "shards": 8, "timeout": 1500}, env=ENV),
     ],
 }
 META = {
     "text": "Generated search, no proof of absence. The real lazy input root stack (BlobAccessDirectoryFetcher + CachingDirectoryFetcher with a 1-3 entry cache, CASInitialContentsFetcher, BlobAccess/StatelessHandleAllocating CAS file factory, InMemoryPrepopulatedDirectory with FUSE or NFS handle allocator, virtualBuildDirectory.MergeDirectoryContents; thorough also naiveBuildDirectory + HardlinkingFileFetcher on disk) is driven by rapid-generated Directory DAGs and step scripts and compared, answer by answer, with a plain mutable copy of the expanded DAG. Storage faults are enumerated exhaustively per scenario (every CAS read x 4 fault kinds), hence level fault_enumeration; tree shapes, exploration orders and local edits are sampled.",
     "design_ref": "6/C17",
-    "note": "Trusts the hand-written fake CAS, the in-memory file pool used for locally created files, and the reference model. Does not go through the FUSE/NFSv4 front ends (NFSv4 OPEN/WRITE/SETATTR refusal on CAS files is left to the C18/C19 simulators); named attributes, hidden files and access monitoring (UnreadDirectoryMonitor) are not exercised. The NFS handle pool count after tearing the tree down is a diagnostic label (leaf_handles_not_returned), not part of the verdict.",
+    "note": "Trusts the hand-written fake CAS, the in-memory file pool used for locally created files, and the reference model. Does not go through the FUSE/NFSv4 front ends (NFSv4 OPEN/WRITE/SETATTR refusal on CAS files is left to the C18/C19 simulators); named attributes, hidden files and access monitoring (UnreadDirectoryMonitor) are not exercised. The NFS handle pool count after tearing the tree down is part of the verdict (leaves of a failed directory load are released), except after a MergeDirectoryContents that collided with existing names. In the caching-fetcher differential only 'fails / returns this message' is compared; status codes and texts of errors are a diagnostic label.",
     "technique": "stateful model-based property testing (rapid) with per-scenario storage-fault enumeration, plus a cached-vs-uncached differential for the directory fetcher",
 }
